@@ -214,7 +214,7 @@ func runDoc(d *Doc) (res Result) {
 	}
 
 	// probe 2: Setup on a directory holding the files
-	dir, derr := os.MkdirTemp("", "vh-dec")
+	dir, derr := os.MkdirTemp(os.Getenv("VH_DECODE_TMP"), "vh-dec")
 	if derr != nil {
 		res.Class, res.Msg = "harness", derr.Error()
 		return
@@ -366,7 +366,7 @@ func runSnip(d *Doc) (res Result) {
 
 // unit probe: taskfile.NewNode on an include location
 func runLoc(d *Doc) (res Result) {
-	dir, _ := os.MkdirTemp("", "vh-loc")
+	dir, _ := os.MkdirTemp(os.Getenv("VH_DECODE_TMP"), "vh-loc")
 	defer os.RemoveAll(dir)
 	err, p := guard(func() error { _, err := taskfile.NewNode(d.Loc, dir, false); return err })
 	res.Probes = 1
